@@ -6,13 +6,16 @@ import kf_replay
 
 
 def native(workdir):
-    """bounded search on the REAL crates through parse() and generate_types of all six back ends: 288 programs - 8 trigger types ((), u8, u16,
+    """bounded search on the REAL crates through parse() and generate_types of all six back ends: 384 programs - 8 trigger types ((), u8, u16,
     u32, U53, OffsetDateTime, Vec<u32>, HashMap<String, u32>) x 9 nestings (X, Vec<X>, Option<X>, Vec<Vec<X>>, Option<Vec<X>>,
-    HashMap<String, X>, HashMap<String, Vec<X>>, [X; 2], Wrap<X>) x 4 positions (struct field, tuple-variant payload, struct-variant field,
-    alias target).  In the generated text of every language (comments and strings removed with that language's lexer) every helper name
+    HashMap<String, X>, HashMap<String, Vec<X>>, [X; 2], Wrap<X>) x 5 positions (struct field, tuple-variant payload, struct-variant field,
+    alias target, a struct field with serde(default)), plus 24 generic-parameter programs.  In the generated text of every language (comments and strings removed with that language's lexer) every helper name
     typeshare brings in - Swift CodableVoid; Scala UByte / UShort / UInt / ULong; Python List / Dict / Optional / datetime / BaseModel / Field /
     Literal / Union / Enum / TypeVar / Generic / Annotated / BeforeValidator / ConfigDict; Go time. / json.; TypeScript ReviverFunc - that is
-    used as a whole token must be defined or imported in the same output."""
+    used as a whole token must be defined or imported in the same output.  Further rules: TypeScript - Date / a mapped Uint8Array in code implies the ReviverFunc /
+    ReplacerFunc footer; Python - every TypeVar used is declared, every function named in BeforeValidator(..) / PlainSerializer(..) is defined;
+    Scala with one unsigned integer mapped - the other aliases are still defined; Swift with one module per crate - CodableVoid used in a
+    module implies that post_generation writes a Codable.swift defining it."""
     exe = kf_replay.replay_bin()
     if not exe:
         return None, 'replay binary does not build: ' + kf_replay._bin.get('err', '')
